@@ -20,6 +20,12 @@ fn pool() -> Vec<Vec<Step>> {
         vec![link("m"), act(&["@upd{k:1,v:1}", "@rem(1)", "@clr"])],
         vec![act(&["@setv(3)", "@setv(4)"]), sync("v")],
         vec![sync("v"), sync("w"), cmd("w", "9"), unlink("v")],
+        // requests repeated on an open link / arriving out of order while data is still waiting
+        vec![link("v"), cmd("v", "1"), cmd("v", "2"), link("v"), cmd("v", "3")],
+        vec![link("m"), act(&["@upd{k:1,v:1}", "@upd{k:2,v:2}"]), link("m"), sync("m"), act(&["@upd{k:1,v:3}"])],
+        vec![link("s"), act(&["@push(1)", "@push(2)"]), link("s"), act(&["@push(3)"])],
+        vec![sync("m"), link("m"), act(&["@upd{k:1,v:1}"]), sync("m")],
+        vec![sync("s"), link("s"), act(&["@push(1)", "@push(2)"]), link("s")],
         // the agent's handler fails: every lane fails, every open link must be closed
         vec![link("v"), sync("m"), act(&["@setv(5)", "@fail"])],
         vec![link("s"), act(&["@push(1)", "@fail", "@push(2)"])],
